@@ -176,7 +176,7 @@ func (root *Root) resolve(
 					if merr == nil {
 						merr = err
 					}
-				} else if objType == meta {
+				} else if sameGoType(objType, meta) {
 					merr = nil
 					result, ea = root.resolveFieldSels(obj, vars, field, m, depth-1)
 					break
@@ -700,6 +700,21 @@ TOP:
 				}
 			}
 		case method != nil:
+			// The method was found on the Go type first seen for the
+			// GraphQL type. The same struct can be handed out by value in
+			// one place and by pointer in another, the members of a []T
+			// next to a *T for example, so the receiver is converted to
+			// what the method takes.
+			if rt := method.Type().In(0); ov.Type() != rt {
+				switch {
+				case ov.Kind() == reflect.Ptr && ov.Type().Elem() == rt && !ov.IsNil():
+					ov = ov.Elem()
+				case rt.Kind() == reflect.Ptr && rt.Elem() == ov.Type():
+					pv := reflect.New(ov.Type())
+					pv.Elem().Set(ov)
+					ov = pv
+				}
+			}
 			args := root.formReflectArgs(ov, vars, field)
 			if err = checkReflectArgs(method, args); err != nil {
 				ea = append(ea, resWarn(field.line, field.col, "%s", err))
